@@ -322,13 +322,45 @@ def main():
     if len(m) != 1:
         die("parser/json.rs: skip_ws_and_comments: expected one starts_with(\"..\")")
     comment_intro = m[0]
-    m = re.findall(r"find\s*\(\s*(" + CHAR + r")\s*\)", sk)
-    if len(m) != 1:
-        die("parser/json.rs: skip_ws_and_comments: expected one find('..')")
-    comment_end = unchar(m[0][0])
     m = re.search(r"trim_start_matches\s*\(([^;]*?)\)\s*[;)]", sk)
     if not m or "is_whitespace" not in m.group(1) or re.search(r"is_ascii_whitespace|multispace", sk):
         die("parser/json.rs: skip_ws_and_comments: whitespace is no longer `char::is_whitespace`")
+
+    # ---- where a `//` comment ends: the pre-scan's rule and every skipper's -------------------
+    # pre-scan: its key characters minus the ones with a structural role (quote, backslash, slash,
+    # the six brackets) are the characters that end a comment
+    structural = ['"', '\\', '/', '(', ')', '[', ']', '{', '}']
+    missing = [c for c in structural if c not in budget_chars]
+    if missing:
+        die(f"parser.rs: validate_parser_budget: no longer keys on {missing}")
+    prescan_ends = sorted(c for c in budget_chars if c not in structural)
+    # skippers: every non-test function of parser.rs / parser/*.rs whose own body names the comment
+    # introducer "//" and consumes up to a terminator (find / take_until / take_till / is_not /
+    # split_once / position / lines); its terminators are the character literals of that body plus
+    # the characters of the string arguments of those calls
+    skipper_sets = {}
+    pdir = os.path.join(base, "parser")
+    sources = [("parser.rs", parser)] + [(os.path.join("parser", f), load(os.path.join("parser", f)))
+                                         for f in sorted(os.listdir(pdir)) if f.endswith(".rs")]
+    consuming = r"\b(find|rfind|take_until|take_till|take_till1|is_not|split_once|position|lines|split_terminator)\s*\("
+    for rel, src in sources:
+        for f in sorted(fn_names(src)):
+            ms = list(re.finditer(r"\bfn\s+" + re.escape(f) + r"\b", src))
+            if len(ms) != 1:
+                continue
+            body = fn_body(src, f, rel)
+            if '"//"' not in body or not re.search(consuming, body):
+                continue
+            ends = set(unchar(x.group(0)) for x in re.finditer(CHAR, body))
+            for m2 in re.finditer(consuming.replace(r"\s*\(", r"") + r"\s*\(\s*\"((?:\\.|[^\"\\])*)\"", body):
+                lit = m2.group(2)
+                if lit != "//":
+                    ends |= set(bytes(lit, "utf-8").decode("unicode_escape"))
+            skipper_sets[f"{rel}::{f}"] = sorted(ends)
+    if not skipper_sets:
+        die("parser: no function skips `//` comments up to a terminator any more")
+    all_ends = sorted(set(c for v in skipper_sets.values() for c in v))
+    skippers_agree = all(v == all_ends for v in skipper_sets.values())
 
     # ---- word_boundary ----------------------------------------------------------------------
     wbody = fn_body(common, "word_boundary", "parser/common.rs")
@@ -432,9 +464,13 @@ def main():
     out.append("/-- the input is refused when `len <rel> MAX_KIP_INPUT_LEN` / `stack.len() <rel> MAX_KIP_NESTING_DEPTH` -/")
     out.append(f'def lengthRefusedWhen : String := "{len_rel}"')
     out.append(f'def depthRefusedWhen : String := "{depth_rel}"')
-    out.append("/-- comment introducer / terminator of `skip_ws_and_comments` -/")
+    out.append("/-- characters that end a `//` comment for the pre-scan (its key characters without quote, backslash, slash and the brackets) -/")
+    out.append(f"def prescanCommentEnds : List Char := {lean_chars(prescan_ends)}")
+    out.append("/-- characters that end a `//` comment for the comment skippers of parser.rs / parser/*.rs (union), and whether every skipper has exactly this set -/")
+    out.append(f"def skipperCommentEnds : List Char := {lean_chars(all_ends)}")
+    out.append(f"def skippersAgree : Bool := {'true' if skippers_agree else 'false'}")
+    out.append("/-- comment introducer of `skip_ws_and_comments` -/")
     out.append(f"def commentIntro : List Char := {lean_chars(comment_intro)}")
-    out.append(f"def commentEnd : Char := {lean_char(comment_end)}")
     out.append("/-- non-alphanumeric characters that still glue to a keyword (`word_boundary`), sorted -/")
     out.append(f"def boundaryExtra : List Char := {lean_chars(boundary_extra)}")
     out.append("/-- whitespace class `trivia1` requires between the words of a multi-word keyword -/")
